@@ -11,7 +11,9 @@
   'claims':'Silf::findClassIndex: for every class id below numClasses and every glyph id all reads of the offsets and class data stay in bounds (linear scan and the binary search over the lookup pairs), both loops terminate; assigns nothing'}@*/
 /*@unit {'name':'c02_get_class_glyph', 'props':['C02','C01','C03'], 'entry':'h_get', 'enforce':'Silf_getClassGlyph', 'min_loops':1,
   'claims':'Silf::getClassGlyph: for every class id below numClasses and every index all reads stay in bounds, the scan terminates; for a linear class the result is the index-th glyph of the class or 0; assigns nothing'}@*/
-typedef struct Silf { uint32 *m_classOffsets; uint16 *m_classData; uint16 m_nClass, m_nLinear; } Silf;
+typedef struct Silf {
+/*@extract {'kind':'members', 'file':'src/inc/Silf.h', 'scope': r'class Silf\s*\{', 'names':['m_classOffsets','m_classData','m_nClass','m_nLinear']}@*/
+} Silf;
 const Silf *g_silf; uint32 g_maxoff;
 #define OFFS(i) (g_silf->m_classOffsets[i])
 #define DATA(i) (g_silf->m_classData[i])
